@@ -119,20 +119,25 @@ def correspondence(ctx):
     pool = ['A!', 'B!', None, True, 'zz', 'high']
     hists = [[['override', 1, [[0, 'A!']]], ['override', 2, [[0, 'B!']]], ['clear']],   # the known shape
              [['override', 1, [[0, 'A!']]], ['override', 1, [[0, 'B!']]], ['clear']],
-             [['override', 3, [[0, 'x'], [2, 'high']]], ['contextualize'], ['override', 3, [[0, 'y']]], ['clear']]]
-    for _ in range(n_hist):
+             [['override', 3, [[0, 'x'], [2, 'high']]], ['contextualize'], ['override', 3, [[0, 'y']]], ['clear']],
+             # several reports (an override names its report as 4th item, a clear as 2nd; 0 = MAIN_REPORT)
+             [['override', 1, [[0, 'A!']], 0], ['override', 1, [[0, 'B!']], 1], ['clear', 1], ['clear', 0]],
+             [['override', 1, [[0, 'A!']], 1], ['override', 2, [[1, 'B!']], 2], ['clear', 2], ['contextualize', 1]],
+             [['override', 2, [[0, 'A!']], 1], ['clear', 0], ['override', 2, [[0, 'B!']], 0], ['clear', 0], ['clear', 1]]]
+    for hn in range(n_hist):
         h = []
+        nrep = 1 if hn % 2 == 0 else rng.randrange(2, 4)
         for _ in range(rng.randrange(1, 9)):
             k = rng.randrange(10)
             if k < 7:
                 fs = rng.sample(range(4), rng.randrange(1, 3))
-                h.append(['override', rng.randrange(0, 5), [[f, rng.choice(pool)] for f in fs]])
+                h.append(['override', rng.randrange(0, 5), [[f, rng.choice(pool)] for f in fs], rng.randrange(nrep)])
             elif k < 9:
-                h.append(['clear'])
+                h.append(['clear', rng.randrange(nrep)])
             else:
-                h.append(['contextualize'])
+                h.append(['contextualize', rng.randrange(nrep)])
         if h[-1][0] == 'override' and rng.random() < 0.8:
-            h.append(['clear'])
+            h.append(['clear', h[-1][3]])
         hists.append(h)
     # the same class created several times in one grading (keywords, constant_fields, locations differ per call)
     reps = []
@@ -248,10 +253,19 @@ def correspondence(ctx):
         if r['err']:
             ctx.violation('override:raises', {'history': h, 'why': 'override/clear raised %s' % r['err']})
             continue
-        # property: after a clear, every class attribute is what it was before any override
+        # property: after a clear of a report, every class overridden through it has its own attributes back as they were before
+        # any override; once no report holds an override any more, every attribute (own and looked up) is as it was
+        pending = {}
         for step, (op, sn) in enumerate(zip(h, r['obs'][1:])):
-            if op[0] in ('clear', 'contextualize') and sn != r['obs'][0]:
+            rep = (op[3] if len(op) > 3 else 0) if op[0] == 'override' else (op[1] if len(op) > 1 else 0)
+            if op[0] == 'override':
+                pending.setdefault(rep, set()).add(op[1])
+                continue
+            cleared = pending.pop(rep, set())
+            diffs = [(ci, fi) for ci in sorted(cleared) for fi in range(4) if sn[ci][fi] != r['obs'][0][ci][fi]]
+            if not pending:
                 diffs = [(ci, fi) for ci in range(5) for fi in range(8) if sn[ci][fi] != r['obs'][0][ci][fi]]
+            if diffs:
                 key = 'override:not-restored'
                 ctx.violation(key, {'history': h[:step + 1], 'why': 'after clear, class attributes differ from the originals at '
                                                                      '(class, field) %s: %s vs %s' % (diffs, [sn[c][f] for c, f in diffs],
@@ -260,9 +274,10 @@ def correspondence(ctx):
         ops = []
         for op in h:
             if op[0] == 'override':
-                ops.append('(Override %s %s)' % (cnat(op[1]), clist(['(%s, %s)' % (cnat(f), cz(code(v))) for f, v in op[2]])))
+                ops.append('(Override %s %s %s)' % (cnat(op[3] if len(op) > 3 else 0), cnat(op[1]),
+                                                    clist(['(%s, %s)' % (cnat(f), cz(code(v))) for f, v in op[2]])))
             else:
-                ops.append('Clear')
+                ops.append('(Clear %s)' % cnat(op[1] if len(op) > 1 else 0))
         items.append('(%s, %s, %s)' % (coq_snap(r['obs'][0]), clist(ops), clist([coq_snap(s) for s in r['obs'][1:]])))
         idx.append(hi)
     bad = ctx.coq_cases('override', HEADER, items, 'check_overrides', chunk=60)
